@@ -245,7 +245,13 @@ def _histories(draw):
         g = kits.cutter_geometry(kits.resolve_class(rec_classes[0]))
         w = words[0]
         i = draw(st.integers(0, len(w)))
-        words.append(w[:i] + (g.site if draw(st.booleans()) else g.rsite) + w[i:])
+        site = g.site if draw(st.booleans()) else g.rsite
+        if draw(st.booleans()) and len(w) > len(site):
+            # written over existing letters: every other offset stays where it was
+            i = min(i, len(w) - len(site))
+            words.append(w[:i] + site + w[i + len(site):])
+        else:
+            words.append(w[:i] + site + w[i:])
         rec_classes.append(rec_classes[0])
         nrec += 1
     nq = draw(st.integers(2, 8))
